@@ -44,3 +44,24 @@ pub fn op(op: ParserOp) {
         }
     });
 }
+
+// --- work counter of the line wrapper -------------------------------------------------------------
+
+thread_local! {
+    static SEARCHES: std::cell::Cell<u64> = const { std::cell::Cell::new(0) };
+}
+
+/// Reset this thread's count of `find_optimal_solution` calls.
+pub fn reset_search_count() {
+    SEARCHES.with(|c| c.set(0));
+}
+
+/// Number of `find_optimal_solution` calls on this thread since the last reset.
+pub fn search_count() -> u64 {
+    SEARCHES.with(|c| c.get())
+}
+
+#[inline]
+pub fn count_search() {
+    SEARCHES.with(|c| c.set(c.get() + 1));
+}
